@@ -342,9 +342,21 @@ def gen_case(rng, family=None, noise_free=None, form=None, want_range=None, degr
         case["xerr_edit"] = {"common": max(xerr), "zero_at": i0,
                              "how": rng.choice(["error=", "item=", "tuple="])}
     case["pscale"] = [1.0] * len(ptrue)
+    if rng.random() < 0.25:
+        case["parnames"] = gen_parnames(rng, len(ptrue))
     if units is not None and (units[0] != 1.0 or units[1] != 1.0):
         rescale(case, float(units[0]), float(units[1]))
     return case
+
+
+def gen_parnames(rng, m):
+    """the documented `parnames` keyword: names in an order that is not the alphabetical one, names
+    of pre-set models, the name a neighbour has by default; the order of the returned parameters
+    is the model's, whatever they are called"""
+    pools = (["z", "y", "x", "w", "v", "u"], ["offset", "gain", "curvature", "d", "e", "f"],
+             ["b", "a", "d", "c", "f", "e"], ["linear", "quadratic", "custom", "c", "b", "a"],
+             ["slope", "intercept", "p2", "p3", "p4", "p5"])
+    return list(rng.choice(pools)[:m])
 
 
 SCALES = (1e-12, 1e-6, 1e-3, 1.0, 1e3, 1e6, 1e12)
@@ -622,6 +634,8 @@ def call_fit(q, case, drop_xerr=False, use_range=True, holder=None):
         kw["parguess"] = list(case["parguess"]) if len(x) % 3 else tuple(case["parguess"])
         if case.get("guess_kind"):
             kw["parguess"] = (list if case["guess_kind"] == "list" else tuple)(case["parguess"])
+    if case.get("parnames"):
+        kw["parnames"] = list(case["parnames"])
     model = model_arg(q, case)
     form = case["form"]
     ek = {}
@@ -988,6 +1002,8 @@ def call_fit_typed(q, case, drop_xerr=False, use_range=True, holder=None):
         kw["degrees"] = A["degrees"]
     if "parguess" in A:
         kw["parguess"] = A["parguess"]
+    if case.get("parnames"):
+        kw["parnames"] = list(case["parnames"])
     model = model_arg(q, case)
     cont = T["container"]
     if cont in ("lists", "xyds", "plot"):
@@ -1168,6 +1184,8 @@ def call_fit_repeated(q, case, drop_xerr=False, use_range=True, holder=None):
         kw["degrees"] = case["degree"]
     if case.get("parguess") is not None:
         kw["parguess"] = list(case["parguess"])
+    if case.get("parnames"):
+        kw["parnames"] = list(case["parnames"])
     model = model_arg(q, case)
     ya = rep_array(q, rep["y"])
     how = rep["how"]
@@ -1264,7 +1282,7 @@ HIST_KINDS = ("switch", "switch", "plot", "global-mc", "reread", "config", "sess
 # registered correlation, the parameters' among them; what a fit result means after it is not said
 # by the property.
 SESSION_STEPS = ("reset_default_configuration", "settings.reset", "clear_unit_definitions",
-                 "define_unit", "other-fit", "same-fit-again", "other-measurements", "fault",
+                 "define_unit", "other-fit", "same-fit-again", "other-measurements", "fault", "gc",
                  "reset_default_configuration")
 CONFIG_CHANGES = (["print_style", "scientific"], ["print_style", "latex"], ["unit_style", "fraction"],
                   ["sig_figs_error", 3], ["sig_figs_value", 4], ["plot_dimensions", [8.0, 6.0]],
@@ -1383,6 +1401,12 @@ def _session_step(q, r, case, what, log):
         c = a * b
         log.append(["other-measurements", float(c.value), float(c.error),
                     float(q.get_correlation(a, b))])
+    elif what == "gc":
+        # the user's other objects go away and the collector runs (the result keeps what it needs)
+        import gc
+        tmp = q.MeasurementArray([1.0, 2.0, 3.0], 0.1)
+        del tmp
+        gc.collect()
     elif what == "fault":
         # rejected requests (each raises; nothing may have changed)
         for req in (lambda: q.set_print_style("nonsense"), lambda: q.set_sig_figs_for_error(-1),
